@@ -651,7 +651,7 @@ func c06RandTriple(rnd *rand.Rand) (rg c06Range, initial sdkmath.LegacyDec, ok b
 }
 
 func TestC06(t *testing.T) {
-	rec := ev.New("C06", "exploration", "pure: real amm.Deposit/Withdraw on (1) every (rx,ry,ps,x,y) and (rx,ry,ps,pc,fee) with entries <= 8 (quick) / 12 (thorough), fees {0,0.003,0.5}, (2) the same domain (smaller B) with reserves/offers/shares scaled by powers of ten up to 10^30 so the 18-decimal roundings inside the code bite, (3) seeded boundary-heavy random inputs with magnitudes 10^0..10^40 (independent, proportional +-1, one side binding, aimed at a target share amount), (4) seeded operation sequences on basic pools, (5) ranged pools: real CreateRangedPool over a grid and random admissible (min,max,initial) triples incl. initial==min / initial==max, followed by deposits / withdrawals / reserve drifts with the pool rebuilt by NewRangedPool like the keeper does, (6) in situ: keeper.Deposit/Withdraw + ExecuteDepositRequest/ExecuteWithdrawRequest on basic, ranged and one-sided ranged pools of a real app, judged on reserve bank balances and pool-coin supply. distinct = the tuple (small) or (shape, decimal lengths of all inputs and outputs, which side bound, dust direction) (wide)")
+	rec := ev.New("C06", "exploration", "pure: real amm.Deposit/Withdraw on (1) every (rx,ry,ps,x,y) and (rx,ry,ps,pc,fee) with entries <= 8 (quick) / 12 (thorough), fees {0,0.003,0.5}, (2) the same domain (smaller B) with reserves/offers/shares scaled by powers of ten up to 10^30 so the 18-decimal roundings inside the code bite, (3) seeded boundary-heavy random inputs with magnitudes 10^0..10^40 (independent, proportional +-1, one side binding, aimed at a target share amount), (4) seeded operation sequences on basic pools, (5) ranged pools: real CreateRangedPool over a grid and random admissible (min,max,initial) triples incl. initial==min / initial==max, followed by deposits / withdrawals / reserve drifts with the pool rebuilt by NewRangedPool like the keeper does, (6) in situ: keeper.Deposit/Withdraw + ExecuteDepositRequest/ExecuteWithdrawRequest on basic, ranged and one-sided ranged pools of a real app, judged on reserve bank balances and pool-coin supply, (7) in situ on the three-app liquidity world (all 15 message kinds, many accounts): every request the end blocker or a deposit-and-farm / unfarm-and-withdraw transaction executed is replayed per pool against the same laws with the pool-coin supply read from the bank, and every ranged pool's price is checked against its range after every tx / EndBlock / BeginBlock. distinct = the tuple (small) or (shape, decimal lengths of all inputs and outputs, which side bound, dust direction) (wide)")
 	defer finish(t, rec)
 	e := &c06Run{rec: rec, sampled: map[string]int{}}
 	rnd := rng("C06")
@@ -814,6 +814,10 @@ func TestC06(t *testing.T) {
 
 	// (6) in situ through the keeper
 	c06Keeper(t, e, rng("C06-keeper"))
+
+	// (7) in situ on the shared three-app liquidity world: requests executed by the real end blocker next to swaps,
+	// ranged pools traded against by real orders (price-range clause after every block)
+	c06World(t, rec)
 
 	rec.Floor("keeper_deposit_executed", 200)
 	rec.Floor("keeper_withdraw_executed", 200)
